@@ -14,11 +14,12 @@
    MinVersion = 0.0.0.dev0 as lower end and rebuild its extension object from its canonical text
    (hypothesis min_reread: the parser reads that text back as the same version).
    Not proved: versions written with fewer or more than three numbers, bounds that are pre-, post-
-   or dev-releases, the comma list, the step from requirement text to these calls; ~= and the
-   .* forms and != are stated below as far as they are proved. *)
+   or dev-releases, the comma list, the step from requirement text to these calls, and the
+   operators ~=V and ==V.* / !=V.* (decided by the oracle on every run). *)
 From DepsDev Require Import Lib.Base Semver.Version Semver.Compare Semver.Span Semver.Interval Semver.Set
      Semver.C03_pypi_proofs Gen.SemverTables.
 From DepsDev Require Spec.Pep440Specifier.
+From Coq Require Import Lia.
 Local Open Scope Z_scope.
 
 (* (0) order: the comparison of a candidate with M.m.p is PEP 440's (trailing zeros do not count) *)
@@ -58,3 +59,42 @@ Theorem C03_pypi_lt_sound : forall pv str M m p, fin M -> fin m -> fin p -> min_
   span_sound (op_version_to_span pv go_tokLess (mk3p str M m p)) (spec_of Spec.Pep440Specifier.PLt M m p false [M; m; p]).
 Proof. exact lt_sound. Qed.
 Print Assumptions C03_pypi_lt_sound.
+
+(* !=M.m.p : excludeToSpans yields [0.0.0, M.m.p) and (M.m.p, inf.inf.inf]; a candidate is matched
+   by one of the two iff packaging says it is not equal.  Partial: M.m.p must not be 0.0.0 ... *)
+Theorem C03_pypi_ne_partial : forall pv str M m p, fin M -> fin m -> fin p -> (M <> 0 \/ m <> 0 \/ p <> 0) ->
+  exists s1 s2, exclude_to_spans pv (mk3p str M m p) = Ok (s1, s2) /\
+    forall u U pre, pcand u U ->
+      match_spans u pre [s1; s2] = Ok (Spec.Pep440Specifier.contains1 (spec_of Spec.Pep440Specifier.PNe M m p false [M; m; p]) U).
+Proof. exact ne_sound. Qed.
+Print Assumptions C03_pypi_ne_partial.
+
+(* ... because for 0.0.0 the first span is a unit span with an open end, which contains() does
+   not look at: `!=0.0` matches 0.0 (class F-C03-1a; outside the domain of non-zero candidates) *)
+Theorem C03_pypi_ne_zero_refuted : forall str,
+  new_span (zero_version SPyPI) false (mk3p str 0 0 0) true =
+  Ok {| sp_rank := RUnit; sp_min_open := false; sp_max_open := true;
+        sp_min := Some (zero_version SPyPI); sp_max := Some (zero_version SPyPI) |}.
+Proof. exact ne_zero_unit. Qed.
+Print Assumptions C03_pypi_ne_zero_refuted.
+
+(* the hypotheses are inhabited: 1.2.0 is a candidate; a parser that re-reads 0.0.0.dev0 exists;
+   and the span of >=1.2.0 matches 1.2.0 and not 1.1.9 *)
+Example C03_pypi_candidate_inhabited : pcand (mk3p nil 1 2 0) [1; 2; 0].
+Proof.
+  split; try reflexivity.
+  - repeat constructor; unfold infinity; lia.
+  - exists 1. split; [left; reflexivity | discriminate].
+Qed.
+
+Example C03_pypi_min_reread_inhabited :
+  min_reread (fun _ _ _ => Ok {| po_v := Some pypi_min_version; po_err := false |}).
+Proof. reflexivity. Qed.
+
+Example C03_pypi_ge_inhabited :
+  match op_version_to_span (fun _ _ _ => Err E_parse) go_tokGreaterEqual (mk3p nil 1 2 0) with
+  | Ok s => match match_span (mk3p nil 1 2 0) false s, match_span (mk3p nil 1 1 9) false s with
+            | Ok true, Ok false => true | _, _ => false end
+  | _ => false
+  end = true.
+Proof. vm_compute. reflexivity. Qed.
